@@ -204,7 +204,8 @@ func newCSWorld(seed int64, k int, extraAccessories int) (*csWorld, error) {
 		lb := accessory.NewColoredLightbulb(accessory.Info{Name: fmt.Sprintf("Filler %d \"quoted\" <%d>", i, i)})
 		accs = append(accs, lb.Accessory)
 	}
-	tr, err := startHTTPServer(dir, "00102003", accs...)
+	// a real ip transport: its per-characteristic callbacks are what turns a value change into EVENT messages
+	tr, err := startTransport(dir, "00102003", false, accs[0], accs[1:]...)
 	if err != nil {
 		return nil, err
 	}
@@ -480,6 +481,10 @@ func charStackFamily(a *Args) error {
 		return err
 	}
 	thorough := a.Tier == "thorough"
+	only := strings.TrimPrefix(a.Extra, "cell=")
+	if !strings.HasPrefix(a.Extra, "cell=") {
+		only = ""
+	}
 	workers := 8
 	worlds := make([]*csWorld, workers)
 	for k := range worlds {
@@ -528,7 +533,11 @@ func charStackFamily(a *Args) error {
 				}
 				for wi, b := range words {
 					// quick: a seeded share of the words per cell; thorough: all
-					if !thorough && (wi+ci+int(a.Seed))%6 != 0 && !strings.HasPrefix(b.Kind, "attack") {
+					if only != "" {
+						if cl.name != only {
+							continue
+						}
+					} else if !thorough && (wi+ci+int(a.Seed))%6 != 0 && !strings.HasPrefix(b.Kind, "attack") {
 						continue
 					}
 					tr.Block(w.runWord(b, cl))
